@@ -201,82 +201,79 @@ func num(v interface{}) (float64, bool) {
 }
 
 // errPath checks that an error path addresses a selected position and that the value there,
-// or at a prefix, is null.
+// or at a prefix, is null. At abstract positions the runtime type is not part of the response:
+// the path is accepted when it is consistent with at least one possible type.
 func (c *conf) errPath(objType string, sets [][]*model.Sel, data interface{}, path []interface{}) string {
-	cur := data
-	var groups []*group
-	ty := model.TypeRef{Name: objType}
-	var g *group
-	for i, p := range path {
-		if cur == nil {
-			// a prefix is null: the rest of the path must still name selected fields; we only
-			// check the shape of the first unresolvable step
-			return ""
+	return c.errPathFrom(model.TypeRef{Name: objType}, sets, data, path, path)
+}
+
+func (c *conf) errPathFrom(ty model.TypeRef, sets [][]*model.Sel, cur interface{}, rest, full []interface{}) string {
+	if cur == nil {
+		return "" // a prefix is null
+	}
+	if len(rest) == 0 {
+		return fmt.Sprintf("error path %v addresses a non-null value %v", full, cur)
+	}
+	switch k := rest[0].(type) {
+	case string:
+		m, ok := cur.(map[string]interface{})
+		if !ok {
+			return fmt.Sprintf("error path %v: key %q applied to %T", full, k, cur)
 		}
-		switch k := p.(type) {
-		case string:
-			m, ok := cur.(map[string]interface{})
-			if !ok {
-				return fmt.Sprintf("error path %v: step %d (%q) applied to %T", path, i, k, cur)
-			}
-			rt := ty.Name
-			if c.s.Kind(rt) != model.KObject {
-				// abstract position: find a possible type that selects k
-				rt = ""
-				for _, pt := range c.s.PossibleTypes(ty.Name) {
-					for _, gg := range Collect(c.s, c.d, c.vars, pt, sets) {
-						if gg.key == k {
-							rt = pt
-						}
-					}
-				}
-				if rt == "" {
-					return fmt.Sprintf("error path %v: key %q is not selected at that position", path, k)
-				}
-			}
-			groups = Collect(c.s, c.d, c.vars, rt, sets)
-			g = nil
-			for _, gg := range groups {
+		named := ty
+		for named.Wrap != "" {
+			named = named.Inner()
+		}
+		if !c.s.IsComposite(named.Name) {
+			return fmt.Sprintf("error path %v: key %q applied at a position of leaf type %s", full, k, ty)
+		}
+		first := ""
+		for _, rt := range c.s.PossibleTypes(named.Name) {
+			var g *group
+			for _, gg := range Collect(c.s, c.d, c.vars, rt, sets) {
 				if gg.key == k {
 					g = gg
 				}
 			}
-			if g == nil {
-				return fmt.Sprintf("error path %v: key %q is not selected at that position", path, k)
+			msg := ""
+			switch {
+			case g == nil:
+				msg = fmt.Sprintf("error path %v: key %q is not selected at that position", full, k)
+			case g.occ[0].Name == "__typename":
+				msg = fmt.Sprintf("error path %v addresses __typename", full)
+			default:
+				fd := c.s.Type(rt).Field(g.occ[0].Name)
+				v, present := m[k]
+				switch {
+				case fd == nil:
+					msg = fmt.Sprintf("error path %v: unknown field", full)
+				case !present:
+					msg = fmt.Sprintf("error path %v: key %q absent from data", full, k)
+				default:
+					msg = c.errPathFrom(fd.Type, subSets(g), v, rest[1:], full)
+				}
 			}
-			if g.occ[0].Name == "__typename" {
-				return fmt.Sprintf("error path %v addresses __typename", path)
+			if msg == "" {
+				return ""
 			}
-			fd := c.s.Type(rt).Field(g.occ[0].Name)
-			if fd == nil {
-				return fmt.Sprintf("error path %v: unknown field", path)
+			if first == "" {
+				first = msg
 			}
-			ty = fd.Type
-			sets = subSets(g)
-			v, present := m[k]
-			if !present {
-				return fmt.Sprintf("error path %v: key %q absent from data", path, k)
-			}
-			cur = v
-		default:
-			idx, ok := num(p)
-			l, isList := cur.([]interface{})
-			if !ok || !isList {
-				return fmt.Sprintf("error path %v: index step %d applied to %T", path, i, cur)
-			}
-			if int(idx) < 0 || int(idx) >= len(l) {
-				return fmt.Sprintf("error path %v: index %v out of range", path, p)
-			}
-			t2 := ty.Nullable()
-			if !t2.IsList() {
-				return fmt.Sprintf("error path %v: index step at a non-list type %s", path, ty)
-			}
-			ty = t2.Inner()
-			cur = l[int(idx)]
 		}
+		return first
+	default:
+		idx, ok := num(rest[0])
+		l, isList := cur.([]interface{})
+		if !ok || !isList {
+			return fmt.Sprintf("error path %v: index step applied to %T", full, cur)
+		}
+		if int(idx) < 0 || int(idx) >= len(l) {
+			return fmt.Sprintf("error path %v: index %v out of range", full, rest[0])
+		}
+		t2 := ty.Nullable()
+		if !t2.IsList() {
+			return fmt.Sprintf("error path %v: index step at a non-list type %s", full, ty)
+		}
+		return c.errPathFrom(t2.Inner(), sets, l[int(idx)], rest[1:], full)
 	}
-	if cur != nil {
-		return fmt.Sprintf("error path %v addresses a non-null value %v", path, cur)
-	}
-	return ""
 }
